@@ -24,7 +24,6 @@ import (
 
 const workers = 8
 
-
 func TestC19(t *testing.T) {
 	r := vcore.Start(t, "C19")
 	if err := registerAll(); err != nil {
